@@ -299,6 +299,11 @@ def _one_snapshot_structural(ctx, r):
             loc(nofollow[0], cfs.module) if nofollow else cfs.where)
     for key in ("gwf.plugins.status:status", "gwf.plugins.run:run"):
         f = idx.func(key)
+        try:
+            from ..inline import inlined
+            f = inlined(ctx, f)   # private helpers such as _load_graph(ctx) are part of the command
+        except Exception:
+            pass
         ctor = [n for n in walk_no_nested(f.node) if isinstance(n, ast.Assign) and isinstance(n.value, ast.Call)
                 and idx.canon(n.value.func, f.module) == f"{CORE}.CachedFilesystem"]
         c2 = f"{f.module.relpath}::{f.qual}::fs"
